@@ -253,7 +253,8 @@ func (w *cfgWriter) block(name string, bl m.BlockM, level int, selfOK bool) {
 	}
 	labels := make([]string, len(bl.Labels))
 	for i := range labels {
-		labels[i] = Pick(g, append([]string{"foo"}, LabelVals...))
+		// (mostly plain names; some need escaping when quoted)
+		labels[i] = Pick(g, append([]string{"foo", "foo", "foo", "q\"q", "a b", "c:\\x"}, LabelVals...))
 	}
 	var keyAttrs []m.AttrKeyM
 	var dep *m.BodyM
